@@ -412,10 +412,10 @@ func init() {
 						}
 					}
 				}
-				if i%6 == 4 {
+				if i%12 == 4 {
 					// a rule line whose length is exactly a multiple of the 4 KiB read block of file-backed lists (and one
 					// byte less / more), with lines after it: the rule is read back by its index at the first match
-					for _, n := range []int{Pick(g, []int{4096, 8192, 12288}), Pick(g, []int{4095, 4097, 8191, 8193})} {
+					for _, n := range []int{Pick(g, []int{4096, 4096, 8192}), Pick(g, []int{4095, 4097, 8191, 8193})} {
 						tag := fmt.Sprintf("blockline%d", n)
 						l := "||" + tag + ".test^$domain=page.example"
 						for k := 0; len(l) < n-40; k++ {
